@@ -69,6 +69,7 @@ class InMemoryMessageBroker(MessageBrokerT):
             if msg.key.id_ == key.id_:
                 q.processing.remove(msg)
                 q.taken_from.pop(key.id_, None)
+                q.taken_by.pop(key.id_, None)
                 break
 
         await asyncio.sleep(0)
@@ -82,6 +83,7 @@ class InMemoryMessageBroker(MessageBrokerT):
             if msg.key.id_ == key.id_:
                 q.processing.remove(msg)
                 q.taken_from.pop(key.id_, None)
+                q.taken_by.pop(key.id_, None)
                 q.dead.append(msg)
                 break
 
